@@ -30,3 +30,13 @@ build_variant() {
   esac
   (cd "$VERIF_ROOT/harness" && go build $mf $flags -o "$out" "./cmd/$name") 
 }
+
+variants_for() {
+  # build variants a property's check needs
+  case "$1" in
+    C01) echo "plain skew race";;
+    C15) echo "plain skew";;
+    C08|C14|C20) echo "plain race";;
+    *) echo "plain";;
+  esac
+}
